@@ -405,51 +405,70 @@ func (f FunctionBuilder) Compile(ctx *cert.CertificateContext) (*pkix.Extension,
 func Validate(profile CertificateProfile, content CertificateContent) bool {
 	//check subject attributes
 	if profile.SubjectAttributes.Attributes != nil {
-		//reverse subject, since we are comparing against a string representation
-		//work on a copy: the caller's subject shares its backing array with content.Subject
-		subject := make(pkix.RDNSequence, len(content.Subject))
-		copy(subject, content.Subject)
-		for i, j := 0, len(subject)-1; i < j; i, j = i+1, j-1 {
-			subject[i], subject[j] = subject[j], subject[i]
-		}
-		wantAttribute := 0
-		haveAttribute := 0
-		for {
-			if wantAttribute >= len(profile.SubjectAttributes.Attributes) ||
-				haveAttribute >= len(subject) {
-				break
+		//the subject is stored in reverse, since we are comparing against a string
+		//representation we collect the attribute types in written order (read-only)
+		have := make([]asn1.ObjectIdentifier, 0, len(content.Subject))
+		for i := len(content.Subject) - 1; i >= 0; i-- {
+			if len(content.Subject[i]) == 0 {
+				continue
 			}
+			have = append(have, content.Subject[i][0].Type)
+		}
 
-			currentAttribute := profile.SubjectAttributes.Attributes[wantAttribute].Attribute
-			wantAt, err := GetRdnAttributeOid(currentAttribute)
+		//resolve the profile's attributes; every attribute that is not optional
+		//must be present in the subject
+		want := make([]asn1.ObjectIdentifier, len(profile.SubjectAttributes.Attributes))
+		for i, attr := range profile.SubjectAttributes.Attributes {
+			wantAt, err := GetRdnAttributeOid(attr.Attribute)
 			if err != nil {
 				//do we have a custom oid?
-				oid, err := cert.OidFromString(currentAttribute)
+				wantAt, err = cert.OidFromString(attr.Attribute)
 				if err != nil {
+					if attr.Optional {
+						//can never be part of a subject, so it is simply never used
+						want[i] = nil
+						continue
+					}
 					logging.Warningf("profile violation: can't resolve %v to a known attribute OID",
-						currentAttribute)
+						attr.Attribute)
 					return false
 				}
-				wantAt = oid
 			}
+			want[i] = wantAt
 
-			if wantAt.Equal(subject[haveAttribute][0].Type) {
-				wantAttribute++
-				haveAttribute++
-			} else {
-				if profile.SubjectAttributes.AllowOther {
-					haveAttribute++
-				} else {
-					logging.Warningf("profile violation: expected %v at this position, but got %v and allowOther is false",
-						wantAt, subject[haveAttribute][0].Type)
-					return false
+			if attr.Optional {
+				continue
+			}
+			present := false
+			for _, haveAt := range have {
+				if wantAt.Equal(haveAt) {
+					present = true
+					break
 				}
+			}
+			if !present {
+				logging.Warningf("profile violation: attribute %v is not optional, but missing in the subject",
+					attr.Attribute)
+				return false
 			}
 		}
 
-		if haveAttribute < len(content.Subject) && !profile.SubjectAttributes.AllowOther {
-			logging.Warningf("profile violation: provided number of attributes larger than specified in profile while allowOther is false")
-			return false
+		//unless other attributes are allowed, the subject must list a subset of the
+		//profile's attributes in the order of the profile
+		if !profile.SubjectAttributes.AllowOther {
+			wantAttribute := 0
+			for _, haveAt := range have {
+				for wantAttribute < len(want) &&
+					(want[wantAttribute] == nil || !want[wantAttribute].Equal(haveAt)) {
+					wantAttribute++
+				}
+				if wantAttribute >= len(want) {
+					logging.Warningf("profile violation: attribute %v is not expected at this position and allowOther is false",
+						haveAt)
+					return false
+				}
+				wantAttribute++
+			}
 		}
 	}
 
